@@ -1,15 +1,15 @@
 /-!
 Row types and comparison functions for the profile tables (property C17).
 
-Three regenerated data files use these types:
+The regenerated data files that use these types:
 
 * `Generated/Xlsx.lean` — an **independent** reading of `internal/cmd/fitgen/Profile.xlsx`
-  (`translators/xlsx.py`, python3 stdlib only: zip + xml), under the reading rules R1–R5 stated in
+  (`translators/xlsx.py`, python3 stdlib only: zip + xml), under the reading rules R0–R7 stated in
   `FitProps/C17.lean`;
 * `Generated/ProfileTables.lean` — a dump of the **compiled** factory / typedef / profile packages
   (`fitharness regen profiletables`);
 * `Generated/GenDigest.lean` — sha256 of every file the repository's own generator emits into a scratch
-  directory, beside the sha256 of the checked-in file.
+  directory; `Generated/TreeDigest.lean` — sha256 of every checked-in `*_gen.go` of the tree (a separate step, another tool).
 
 Text is carried as a **packed string**: the natural number whose big-endian base-256 digits are the byte 1
 followed by the UTF-8 bytes of the text (so `""` is 1, `"a"` is 0x161). Equality of packed strings is equality
@@ -95,10 +95,42 @@ structure TypeRow where
   consts : List Const
   deriving DecidableEq, Repr, Inhabited
 
-/-- The one rule by which a spreadsheet type loses rows on its way into Go (a Go `switch` cannot list a value
-twice): among several rows of a type carrying the same value, those commented as deprecated are dropped. -/
+/-! ### reading rule R7: a deprecated alias row is not a constant of its own
+
+Go's generated `String()` / `List…()` / `…FromString` are functions of the VALUE, so a type cannot carry two constants of one
+value. Where the Types sheet lists several rows of one type with the same value, the rows whose comment says "deprecated"
+are aliases of the surviving row and are not generated (`// Name … [DUPLICATE!]` in the generated file). The rule is
+evaluated on the spreadsheet alone; `FitProps/C17.lean` pins the exact list of rows it drops on the current spreadsheet
+(`C17_dedupe_exact`) and proves that no VALUE is lost by it. -/
+
+/-- R7 drops the row `c` of type `t`: it is commented "deprecated" and another row of the same type has the same value -/
+def TypeRow.drops (t : TypeRow) (c : Const) : Bool :=
+  c.dep && t.consts.any fun d => d.value == c.value && d.name != c.name
+
+/-- the rows R7 drops from a type, as (type name, constant name, value) -/
+def TypeRow.droppedRows (t : TypeRow) : List (Nat × Nat × Nat) :=
+  (t.consts.filter t.drops).map fun c => (t.name, c.name, c.value)
+
+/-- a type as the generated code can show it: the spreadsheet-only `dep` mark forgotten, no row dropped -/
+def TypeRow.plain (t : TypeRow) : TypeRow :=
+  { t with consts := t.consts.map fun c => { c with dep := false } }
+
+/-- reading rule R7 applied: the rows `TypeRow.drops` names are removed (and the `dep` mark forgotten), nothing else -/
 def TypeRow.dedupe (t : TypeRow) : TypeRow :=
-  let keep := t.consts.filter fun c => !(c.dep && t.consts.any fun d => d.value == c.value && d.name != c.name)
+  let keep := t.consts.filter fun c => !t.drops c
+  { t with consts := keep.map fun c => { c with dep := false } }
+
+/-- **Reading rule R7, the complete list of what it drops today**: (type, constant, value) of the rows of the Types sheet that
+are deprecated aliases of another row of the same type with the same value — `weather_report.forecast = 1` ("Deprecated use
+hourly_forecast instead"). ONE definition: `C17_dedupe_exact` states that the rule (`TypeRow.drops`, evaluated on the
+spreadsheet alone) drops exactly these rows, and the `--spec` oracle of the family `profilerows` removes exactly these rows
+(`TypeRow.dropListed`) — so a second row dropped by the rule breaks the theorem, and a row missing from the compiled packages
+that is not in this list is a failing row of the family, whatever the rule says. -/
+def r7Dropped : List (Nat × Nat × Nat) := [(0x1776561746865725f7265706f7274, 0x1666f726563617374, 1)]
+
+/-- the type without exactly the listed (type, constant, value) rows (and the `dep` mark forgotten) -/
+def TypeRow.dropListed (lst : List (Nat × Nat × Nat)) (t : TypeRow) : TypeRow :=
+  let keep := t.consts.filter fun c => !lst.any fun d => d.1 == t.name && d.2.1 == c.name && d.2.2 == c.value
   { t with consts := keep.map fun c => { c with dep := false } }
 
 /-! ### the spell-correction of the generator (known finding F14 / KF-C17-1) -/
@@ -288,14 +320,52 @@ def encPair (p : Nat × Nat) : Nat := normIdent p.1 * 65536 + p.2
 to the case / punctuation of the identifiers -/
 def sortedPairs (l : List (Nat × Nat)) : List Nat := msortF l.length (l.map encPair)
 
-/-! ### the generator's output against the tree -/
+/-! ### the generator's output against the tree
 
-structure FileDigest where
+Two tables, written by two different tools in two separately logged steps of the check:
+`Generated/GenDigest.lean` (`translators/gendigest.py`: runs the repository's generator into a scratch directory and hashes
+what it wrote — it never reads a checked-in `*_gen.go`) and `Generated/TreeDigest.lean` (`translators/treedigest.sh`:
+`find` + `sha256sum` over the whole tree — it never runs anything). -/
+
+/-- one file the generator wrote into the scratch directory -/
+structure GenFile where
+  /-- path relative to the output root (= relative to the repository root) -/
   path : Nat
   /-- sha256 of what the generator writes now -/
-  regen : Nat
-  /-- sha256 of the checked-in file (0 if it does not exist) -/
-  tree : Nat
+  sha : Nat
   deriving DecidableEq, Repr, Inhabited
+
+/-- one checked-in `*_gen.go` file of the tree -/
+structure TreeFile where
+  /-- path relative to the repository root -/
+  path : Nat
+  /-- sha256 of the checked-in file -/
+  sha : Nat
+  /-- the program its first line names (`// Code generated by <program> …`; the empty text if the line has another form) -/
+  generator : Nat
+  deriving DecidableEq, Repr, Inhabited
+
+/-- (path, program named in the header) of the checked-in file `t` is in the list `others` -/
+def TreeFile.listedIn (others : List (Nat × Nat)) (t : TreeFile) : Bool :=
+  others.any fun p => Nat.beq p.1 t.path && Nat.beq p.2 t.generator
+
+/-- **The two digest tables agree.** One pass over the two tables, both sorted by path (bytewise; both translators sort):
+every checked-in file either is the next emitted file — same path, same digest (and not the digest 0 of an unreadable
+file), its first line naming the program `prog` — or is one of the listed outputs of other generators; and no emitted file
+is left without its checked-in file. (Linear, so that the kernel evaluates it in well under a second;
+`FitProps/C17RuleLemmas.lean` proves what `true` means, for all tables.) -/
+def filesMatch (others : List (Nat × Nat)) (prog : Nat) : List TreeFile → List GenFile → Bool
+  | [], [] => true
+  | [], _ :: _ => false
+  | t :: ts, [] => t.listedIn others && filesMatch others prog ts []
+  | t :: ts, g :: gs =>
+    match Nat.beq t.path g.path with
+    | true => Nat.beq t.sha g.sha && Nat.beq t.generator prog && !Nat.beq g.sha 0 && filesMatch others prog ts gs
+    | false => t.listedIn others && filesMatch others prog ts (g :: gs)
+
+/-- R7 never loses a value on this type: every row it drops has a surviving alias — a row of the same value, another
+name, not deprecated -/
+def TypeRow.aliasesSurvive (t : TypeRow) : Bool :=
+  t.consts.all fun c => !t.drops c || t.consts.any fun k => k.value == c.value && !k.dep && k.name != c.name
 
 end Fit.ProfileSpec
